@@ -73,6 +73,9 @@ impl World {
                 n.stats.bytes_in += bytes.len() as u64;
                 n.inbound.extend(bytes.iter());
                 n.last_inbound_ns = simrt::now_ns();
+                let total = n.stats.bytes_in as usize;
+                let now = simrt::now_ns();
+                n.arrivals.push((now, total));
                 simrt::trace("net.s2c", bytes.len() as u64, 0);
                 n.announce();
             }
